@@ -620,6 +620,9 @@ def c_int_text(s):
         return s[2][2] in (1, 2) and c_int_text(s[1])
     if t in ("Sum", "Product"):
         return all(c_int_text(c) for c in s[1])
+    if t == "Quotient":
+        # int / int is an int in C (that is the finding), so it nests
+        return c_int_text(s[1]) and c_int_text(s[2])
     return False
 
 
